@@ -324,7 +324,7 @@ func runC14(c *core.Ctx) {
 	}
 	type cs struct {
 		query, vars, label string
-		types             []string
+		types              []string
 	}
 	var cases []cs
 	var shapes []string
@@ -382,9 +382,18 @@ func runC14(c *core.Ctx) {
 		}
 		cases = append(cases, mk(types, vals, present, defaults, label))
 	}
+	nMatrixStart := len(cases)
+	matrix := valueMatrix()
 	sdl := varsSchema + "\ndirective @tag(x: Any) on FIELD"
 	sdlB := varsSchemaB + "\ndirective @tag(x: Any) on FIELD"
+	for _, m := range matrix {
+		cases = append(cases, cs{m[0], m[1], "matrix", nil})
+	}
+	c.Count("value_matrix_cases", int64(len(matrix)))
 	sdlOf := func(i int) string {
+		if i >= nMatrixStart && i < nMatrixStart+len(matrix) {
+			return matrixSchema
+		}
 		if i%3 == 2 {
 			return sdlB
 		}
@@ -411,11 +420,15 @@ func runC14(c *core.Ctx) {
 	// conformance of returned values (implementation alone)
 	s2A, _ := loadImpl(sdl)
 	s2B, _ := loadImpl(sdlB)
+	s2M, _ := loadImpl(matrixSchema)
 	_ = s
 	for i, k := range cases {
 		s2 := s2A
 		if sdlOf(i) == sdlB {
 			s2 = s2B
+		}
+		if sdlOf(i) == matrixSchema {
+			s2 = s2M
 		}
 		labels[k.label]++
 		switch {
@@ -460,4 +473,69 @@ func runC14(c *core.Ctx) {
 	c.ExhaustNote = fmt.Sprintf("every list/non-null pattern up to list depth %d over %d leaf types x {conforming, explicit null, absent}", depth, len(varLeafTypes))
 	c.Sample(map[string]interface{}{"query": cases[len(shapes)*3].query, "variables": cases[len(shapes)*3].vars})
 	c.Sample(map[string]interface{}{"query": cases[len(shapes)*3+1].query, "variables": cases[len(shapes)*3+1].vars})
+}
+
+const matrixSchema = `type Query { f(a: Int): Int }
+enum Color { RED GREEN }
+scalar Any
+input M { i: Int f: Float s: String b: Boolean id: ID c: Color a: Any l: [Int] ll: [[Int]] m: M ms: [M] ri: Int! = 7 }
+input One @oneOf { a: Int b: String }
+directive @tag(x: Any) on FIELD`
+
+// valueMatrix: every leaf value a request can carry (nil, bool, the integer and float kinds, integral
+// floats, strings that look like an integer, a float, an exponent form, a boolean, an enum value or
+// nothing, json.Number in each of these forms and beyond 64 bits, empty and non-empty lists and maps)
+// at every position (top level nullable and non-null, list item, item of a list of lists, input-object
+// field, field of an object in a list, field of a nested object) of every leaf type; and every default
+// literal (empty and nested empty lists and objects, null, scalars of each kind) with the variable
+// absent. Complete, not sampled: (query, variables) pairs over matrixSchema.
+func valueMatrix() [][2]string {
+	leaves := []interface{}{nil, true, false, 1, int32(1), int64(1), 0, -1, 2147483648, float32(1.5), 1.5, 2.0, 1e20, "abc", "12", "1.5", "1e2", "", "true", "RED", "red",
+		json.Number("1"), json.Number("2.5"), json.Number("1e2"), json.Number("abc"), json.Number("99999999999999999999"), json.Number(""),
+		[]interface{}{}, []interface{}{1}, []interface{}{nil}, map[string]interface{}{}, map[string]interface{}{"i": 1}, map[string]interface{}{"a": 1}}
+	fieldOf := map[string]string{"Int": "i", "Float": "f", "String": "s", "Boolean": "b", "ID": "id", "Color": "c", "Any": "a"}
+	var out [][2]string
+	one := func(decl string, v interface{}) {
+		out = append(out, [2]string{"query($v0: " + decl + ") { u0: f @tag(x: [$v0]) }", EncodeGo(map[string]interface{}{"v0": v})})
+	}
+	for _, t := range []string{"Int", "Float", "String", "Boolean", "ID", "Color", "Any", "M", "One"} {
+		for _, l := range leaves {
+			one(t, l)
+			one(t+"!", l)
+			one("["+t+"]", []interface{}{l})
+			one("["+t+"!]", []interface{}{l, l})
+			one("[["+t+"]]", []interface{}{[]interface{}{l}})
+			one("[["+t+"]!]!", []interface{}{[]interface{}{l}, []interface{}{}})
+			one("["+t+"]", l) // a single value where a list is expected
+			one("[["+t+"]]", l)
+			one("[["+t+"]]", []interface{}{l})
+			if f, ok := fieldOf[t]; ok {
+				one("M", map[string]interface{}{f: l})
+				one("[M]", []interface{}{map[string]interface{}{f: l}})
+				one("M", map[string]interface{}{"m": map[string]interface{}{f: l}})
+				one("M", map[string]interface{}{"ms": []interface{}{map[string]interface{}{f: l}}})
+				one("M", map[string]interface{}{"ms": map[string]interface{}{f: l}})
+			}
+			if t == "Int" {
+				one("M", map[string]interface{}{"l": []interface{}{l}})
+				one("M", map[string]interface{}{"l": l})
+				one("M", map[string]interface{}{"ll": []interface{}{[]interface{}{l}}})
+				one("M", map[string]interface{}{"ll": []interface{}{l}})
+				one("M", map[string]interface{}{"ll": l})
+				one("M", map[string]interface{}{"ri": l})
+			}
+		}
+	}
+	defaults := []string{"[]", "[[]]", "[[], []]", "{}", "null", "1", `"s"`, "[1]", "[null]", "[[1], []]", "{l: []}", "{ll: [[]]}", "{ll: []}", "{m: {l: []}}", "{ms: []}", "{ms: [{l: []}]}",
+		"{ri: null}", "{a: []}", "{a: {}}", "{a: [[], {}]}", "RED", "true", "1.5", "{i: 1, f: 1, s: \"x\", b: true, id: 1, c: RED}"}
+	types := []string{"Int", "[Int]", "[Int!]", "[[Int]]", "[[Int]!]!", "M", "[M]", "[M!]!", "Any", "[Any]", "Color", "[Color]", "String", "[String]", "Float", "Boolean", "ID", "One"}
+	for _, t := range types {
+		for _, df := range defaults {
+			q := "query($v0: " + t + " = " + df + ") { u0: f @tag(x: [$v0]) }"
+			out = append(out, [2]string{q, EncodeGo(map[string]interface{}{})})
+			out = append(out, [2]string{q, EncodeGo(map[string]interface{}{"v0": nil})})
+			out = append(out, [2]string{"query($v0: " + t + " = " + df + ", $v1: Int = 3) { u0: f @tag(x: [$v0, $v1]) }", EncodeGo(map[string]interface{}{"v1": 4})})
+		}
+	}
+	return out
 }
